@@ -203,7 +203,8 @@ def mk_filewriter(st, kind, connected):
         out = VStr(None, fresh("path", z3.StringSort()))
         fobj = st.alloc("FileObj", {"$content": VStr(None, written.z()), "$text": VBool(F), "$closed": VBool(F), "$flushed": VStr(None, fresh("flushed", z3.StringSort()))}) if connected else None
     else:
-        fobj = st.alloc("FileObj", {"$content": VStr(None, fresh("content0", z3.StringSort())), "$text": VBool(z3.BoolVal(kind == "text")), "$closed": VBool(F),
+        fobj = st.alloc("FileObj", {"encoding": VOpt(fresh("encoding_none", z3.BoolSort()), VStr(None, fresh("encoding", z3.StringSort()))),
+                                    "$content": VStr(None, fresh("content0", z3.StringSort())), "$text": VBool(z3.BoolVal(kind == "text")), "$closed": VBool(F),
                                     "$flushed": VStr(None, fresh("flushed", z3.StringSort())), "$tty": VBool(fresh("isatty", z3.BoolSort()))})
         out = fobj
     fw = st.alloc("FileWriter", {"_output": out, "_file": (fobj if connected else NONE), "_is_terminal": VBool(fresh("is_terminal", z3.BoolSort())) if connected else VBool(F)})
@@ -233,7 +234,12 @@ def install_files(x):
         if isinstance(o, VStr): return VBool(F)
         raise Unsupported(f"hasattr({type(o).__name__}, {name.py})")
     x.ext["hasattr"] = hasattr_
-    def str_decode(x_, recv, args, kwargs, st, n): return VStr(recv.py, recv.term)      # A-str: decode('utf-8') of bytes produced by bytes(s,'utf-8') is s
+    def str_decode(x_, recv, args, kwargs, st, n):
+        # A-str: decode('utf-8') of bytes produced by bytes(s, 'utf-8') is s; any other codec gives some other text
+        if args and isinstance(args[0], VStr) and args[0].py == "utf-8": return VStr(recv.py, recv.term)
+        dec = z3.Function("decode_with", z3.StringSort(), z3.StringSort(), z3.StringSort())
+        codec = args[0].z() if args and isinstance(args[0], VStr) else z3.StringVal("?")
+        return VStr(None, dec(recv.z(), codec))
     x.ext["str.decode"] = str_decode
     def path_ctor(x_, recv, args, kwargs, st): return st.alloc("Path", {"$p": args[0]})
     c[("Path", "__new__")] = path_ctor
